@@ -109,7 +109,7 @@ func strictReqSpec() []byte {
 		"/btext":  map[string]any{"post": map[string]any{"operationId": "btext", "requestBody": body(map[string]any{"text/plain": map[string]any{"type": "string"}}), "responses": ok}},
 		"/bmulti": map[string]any{"post": map[string]any{"operationId": "bmulti", "requestBody": body(map[string]any{"multipart/form-data": obj}), "responses": ok}},
 		"/bother": map[string]any{"post": map[string]any{"operationId": "bother", "requestBody": body(map[string]any{"application/octet-stream": map[string]any{"type": "string", "format": "binary"}}), "responses": ok}},
-		"/bmany": map[string]any{"post": map[string]any{"operationId": "bmany", "requestBody": body(map[string]any{"application/json": obj, "application/x-www-form-urlencoded": obj, "text/plain": map[string]any{"type": "string"}}), "responses": ok}},
+		"/bmany":  map[string]any{"post": map[string]any{"operationId": "bmany", "requestBody": body(map[string]any{"application/json": obj, "application/x-www-form-urlencoded": obj, "text/plain": map[string]any{"type": "string"}}), "responses": ok}},
 		"/items/{id}": map[string]any{"get": map[string]any{"operationId": "getItem", "parameters": []any{
 			map[string]any{"name": "id", "in": "path", "required": true, "schema": map[string]any{"type": "integer"}},
 			map[string]any{"name": "q", "in": "query", "schema": map[string]any{"type": "string"}},
